@@ -239,6 +239,9 @@ def units(tier):
     from props import c02_save as SV
     wrap("C02.xsolution_save.saves_what_add_solution_reads", SV.unit_xsolution_save)
     wrap("C02.xsurface_save.charge_saved_for_every_type_add_surface_reads", SV.unit_xsurface_save)
+    wrap("C02.xpp_assemblage_save.every_phase_gets_its_solved_amount", SV.unit_xpp_save)
+    wrap("C02.xgas_save.components_get_solved_moles_pressure_fugacity", SV.unit_xgas_save)
+    wrap("C02.xexchange_save.sites_get_sorbed_amounts_and_charge", SV.unit_xexchange_save)
     from props import c02_dispatch as DP
     wrap("C02.step.element_dispatch_adds_the_same_amount_to_exactly_one_accumulator", DP.unit_dispatch)
     from props import c02_reset as RS
